@@ -4,24 +4,24 @@ CONSTANTS
   FunRels = {"actionnext", "beads", "xrefprev", "xrefstmprev", "xrefstm", "extends", "length", "refchain", "refcontents", "refkids", "refannots", "pageparent", "fieldparent", "colorspace", "function", "smask", "irt"}
   MaxN = 3
   SymN = 3
-  GraphMod = 3
+  GraphMod = 5
   Decors = {"none", "dangling", "wrong", "null", "direct"}
   DecorMod = 6
-  FunMod = 3
+  FunMod = 5
   OutlineNs = {1, 2}
-  Outline1Mod = 6
+  Outline1Mod = 9
   OutlineMod = 48
   DepthRels = {"pagetree", "fields", "structtree", "nametree", "numtree", "xobjects", "actionnext", "beads", "xrefprev", "extends", "length", "refchain", "pageparent", "fieldparent", "colorspace", "function", "smask", "irt", "outlinefirst", "outlinenext"}
   SynKinds = {"array", "dict", "mixed", "parens", "contentarray", "contentq", "contentdict"}
   Limit = 100
-  BigDepth = 10000
+  BigDepth = 5000
   HugeDepth = 100000
   MutTargets = {"ttf", "certpem", "certder", "p7c", "pkcs7", "json", "csv"}
   MutOps = {"trunc", "len0", "lenmax", "lenplus1", "lenminus1"}
   MutK = 12
   PdfBases = {"classic", "objstm", "encrypted"}
   PdfK = 2
-  PdfMod = 10
+  PdfMod = 14
   TruncK = 12
   Seed = 1
   Emit = TRUE
